@@ -10,6 +10,7 @@ import json
 
 import families
 import probes
+import render
 import pyfacts
 import runs
 import vlib
@@ -92,10 +93,22 @@ def run(tier):
     cases = probes.generate(chk, "MC_C17", ["shapes"], 0)
     for c in cases:
         c["family"] = "MC_C17"
+    # the second layout of the same shapes: bodies of one simple statement on the line of their header (another node of the parser)
+    inline = []
+    render.INLINE_BODIES = True
+    try:
+        for c in cases:
+            src2, lines2 = render.program(c["prog"])
+            if src2 != c["src"]:
+                inline.append(dict(c, src=src2, lines=lines2, layout="inline"))
+    finally:
+        render.INLINE_BODIES = False
     extra = [c for c in families.all_programs(chk, depth_values=0, depth_verdict=0, only=("MC_C01", "MC_C05")) if c["kind"] not in ("call", "method", "ctor") or c["expect"] == "accept"]
     if tier == "quick":
         cases = [c for c in cases if c["kind"] == "operator-names"] + [c for c in cases if c["kind"] != "operator-names"][::3]
         extra = extra[::4]
+        inline = [c for c in inline if c["kind"] == "operator-names"][::2] + [c for c in inline if c["kind"] != "operator-names"][::3]
+    cases += inline
     for c in extra:
         c["id"] = len(cases)
         cases.append(c)
